@@ -111,8 +111,9 @@ def opt(t, q=''):
 
 # ------------------------------------------------------------------ structured programs
 class Cell:
-    def __init__(self, ident, pos, ty, default='none'):
+    def __init__(self, ident, pos, ty, default='none', go_override=None):
         self.ident, self.pos, self.ty, self.default = ident, pos, ty, default
+        self.go_override = go_override        # text of #[typeshare(go(type = ".."))] on a named field, or None
 
     @property
     def depth(self):
@@ -127,7 +128,8 @@ def attr_lines(c, twin):
     """the attribute lines in front of a named field"""
     d = 'none' if twin else c.default
     i = c.ident
-    return {'none': [], 'bare': ['#[serde(default)]'],
+    ov = [f'#[typeshare(go(type = "{c.go_override}"))]'] if c.go_override else []
+    return ov + {'none': [], 'bare': ['#[serde(default)]'],
             'merged': [f'#[serde(default, rename = "{i}")]'],
             'split': ['#[serde(skip_serializing_if = "Option::is_none")]', '/// doc', '#[serde(default)]'],
             'first': [f'#[serde(alias = "{i}x", default, skip_serializing_if = "Option::is_none")]'],
@@ -188,7 +190,8 @@ class Prog:
 
     def ir_items(self, twin=False):
         ty = (lambda c: t_ir(t_strip(c.ty) if twin else c.ty))
-        fld = (lambda c: {'id': ir.mk_id(c.ident), 'ty': ty(c), 'comments': [], 'has_default': c.has_default and not twin, 'decorators': []})
+        fld = (lambda c: {'id': ir.mk_id(c.ident), 'ty': ty(c), 'comments': [], 'has_default': c.has_default and not twin,
+                          'decorators': [['Go', [{'name': 'type', 'value': c.go_override}]]] if c.go_override else []})
         structs, enums, aliases = [], [], []
         for it in self.items:
             if it[0] == 'struct':
@@ -245,6 +248,19 @@ def matrix_program(base, k):
     n = nm('N')
     items.append(('newtype_struct', n, gens, Cell(n, 'alias', opt(base))))
     return Prog(items)
+
+
+GO_OVERRIDES = ['uint', 'Custom', '[]byte']     # no leading `*`: a `*`-headed user text would be read as typeshare's marker by the text reader
+
+
+def go_override_program(base, k):
+    """Go type overrides on named fields: base / Option / Option<Option>, with and without serde(default), struct and struct variant"""
+    nm = Namer()
+    tys = [base, opt(base), opt(opt(base))]
+    fields = [Cell(nm('f'), 'field', t, d, o) for t in tys for d in ('none', 'bare') for o in GO_OVERRIDES]
+    vfields = [Cell(nm('g'), 'variant_field', t, d, o) for t in tys for d in ('none', 'merged') for o in GO_OVERRIDES[:2]]
+    n = nm('V')
+    return Prog([('struct', f'S{k:03d}', [], fields), ('enum', f'E{k:03d}', [], [('newtype', n, Cell(n, 'payload', base)), ('struct', nm('W'), vfields)])])
 
 
 def wrapper_program(w, base, k):
@@ -319,7 +335,8 @@ def random_program(rng, k):
         kind = rng.choice(['struct', 'struct', 'enum', 'alias', 'newtype_struct'])
         gens = rng.choice([[], [], ['T'], ['T', 'U']])
         if kind == 'struct':
-            items.append(('struct', nm('S'), gens, [Cell(nm('f'), 'field', random_cell_type(rng, gens), rng.choice(DEFAULTS + ['none', 'bare'])) for _ in range(rng.randint(1, 5))]))
+            items.append(('struct', nm('S'), gens, [Cell(nm('f'), 'field', random_cell_type(rng, gens), rng.choice(DEFAULTS + ['none', 'bare']),
+                                                         rng.choice(GO_OVERRIDES) if rng.random() < 0.06 else None) for _ in range(rng.randint(1, 5))]))
         elif kind == 'enum':
             vs = []
             for _ in range(rng.randint(1, 4)):
@@ -348,7 +365,7 @@ def random_cfg(rng, lang):
     elif lang == 'scala':
         c = {'package': rng.choice(['com.p', 'a.b.c'])}
     elif lang == 'go':
-        c = {'package': 'p', 'uppercase_acronyms': rng.choice([[], [], ['id', 'url']])}
+        c = {'package': 'p', 'uppercase_acronyms': rng.choice([[], [], ['id', 'url']]), 'no_pointer_slice': rng.choice([False, False, True])}
     elif lang == 'swift':
         c = {'prefix': rng.choice(['', '', 'OP'])}
     if rng.random() < 0.3:
@@ -474,12 +491,14 @@ def run(chk):
                 '(13 primitives, Vec/HashMap/array/slice/user/generic-instance/generic-parameter, nested) under 0..2 Option layers with stacks of &, Box/Arc/Rc/Cow/Cell/'
                 'RefCell/Mutex/RwLock/Weak around, between and inside the layers, path-qualified or not, and serde(default) absent / bare / merged / split over several '
                 'attributes / non-bare `default = "path"` / typeshare(default); both entries (source through parse, IR through generate_ir), six languages, random '
-                'prefix / package / acronyms / type_mappings. The marker matrix (18 base types x depth x 7 spellings x 4 positions) is enumerated every run. '
+                'prefix / package / acronyms / type_mappings / Go no_pointer_slice. The marker matrix (18 base types x depth x 7 spellings x 4 positions) is enumerated every '
+                'run, for Go also under no_pointer_slice = true (verdict good_C04_go: Option<Vec<T>> is `[]T` + omitempty), plus Go type overrides on named fields '
+                '(verdict good_C04_go_override: the tag part). '
                 'non-trivial = distinct (language, entry, position, depth, default spelling, base type) judged inside dom_C04 with known_C04 = None')
     chk.assumptions = ['syn is not modelled: the model receives the AST libdrive `ast` produces from the same text',
                        'what the generated text MEANS to the target language is the reading of Spec/C04Readers.v + lib/extract.py (no target compilers installed)',
-                       'type overrides (#[typeshare(lang(type = ..))], serialized_as), type_mappings keyed on an Option<..> display and Go no_pointer_slice are outside '
-                       'the property\'s quantifier and are not generated']
+                       'type overrides of the other languages (#[typeshare(lang(type = ..))], serialized_as) and type_mappings keyed on an Option<..> display are outside '
+                       'the property\'s quantifier and are not generated; a Go type override replaces the type text by the user\'s: only the tag part (omitempty) is judged there']
     chk.notes += [
         'note (not a violation): Kotlin prints `T?? = null` for Option<Option<T>> - legal, redundant; the property asks for a distinguishable double Option only of TypeScript',
         'note (not a violation): a TypeScript alias of Option<T> is `type A = T | undefined` - the alias form of the optional idiom (a type has no `?` key)',
@@ -492,6 +511,16 @@ def run(chk):
     progs = [('matrix', matrix_program(b, k), {l: dict(BASE_CFG.get(l, {})) for l in LANGS}) for k, b in enumerate(BASES)]
     for k, w in enumerate(WRAPS + ['&']):
         progs.append(('wrapper', wrapper_program(w, BASES[(3 * k) % 16], k), {l: dict(BASE_CFG.get(l, {})) for l in LANGS}))
+    # Go only: the marker matrix and the wrapper matrix once more under no_pointer_slice = true (Option<Vec<T>> is `[]T` + omitempty),
+    # and Go type overrides on named fields under both values of the switch (the tag part must stay)
+    gonps = {'package': 'p', 'no_pointer_slice': True}
+    for k, b in enumerate(BASES):
+        progs.append(('matrixnps', matrix_program(b, 100 + k), {'go': dict(gonps, uppercase_acronyms=['id', 'url'] if k % 2 else [])}))
+    for k, w in enumerate(WRAPS + ['&']):
+        progs.append(('wrappernps', wrapper_program(w, BASES[7 + k % 6], 100 + k), {'go': dict(gonps)}))
+    for k, b in enumerate([BASES[1], BASES[7], BASES[14]]):
+        progs.append(('gooverride', go_override_program(b, 200 + k), {'go': {'package': 'p'}}))
+        progs.append(('gooverridenps', go_override_program(b, 210 + k), {'go': dict(gonps)}))
     nrand = 500 if chk.tier == 'quick' else 12000
     for k in range(nrand):
         progs.append(('random', random_program(rng, k), {l: random_cfg(rng, l) for l in LANGS}))
@@ -518,7 +547,11 @@ def judge_rows(chk, tag, lang, entry, cells, rows_p, rows_t, payload, equal):
             chk.violation(f'{tag}-{lang}-{entry}-{c.ident}', dict(payload, cell=c.ident, lang=lang, entry=entry),
                           f'position {c.ident} ({c.pos}) is missing from (or ambiguous in) the generated {lang} definitions: a member was dropped or invented')
             continue
-        req.append(f'(c04_judge {lang} {c.pos} n{c.depth} {B(c.has_default)} {S(rt[7])} {B(rp[3])} {B(rp[4])} {B(rp[5])} {S(rp[6])})')
+        extra = ''
+        if lang == 'go':
+            irty = c.irty if hasattr(c, 'irty') else t_ir(c.ty)
+            extra = f' (go {B(bool((payload.get("cfg") or {}).get("no_pointer_slice")))} {ir.sx_ty(irty)} {B(bool(getattr(c, "go_override", None)))})'
+        req.append(f'(c04_judge {lang} {c.pos} n{c.depth} {B(c.has_default)} {S(rt[7])} {B(rp[3])} {B(rp[4])} {B(rp[5])} {S(rp[6])}{extra})')
         meta.append((c, rp, rt))
     return req, meta
 
@@ -553,7 +586,7 @@ def judge_programs(chk, progs):
     ireq, ikey = [], []
     for n, (kind, p, cfgs) in enumerate(progs):
         src, tsrc, items, titems = p.source(), p.source(True), p.ir_items(), p.ir_items(True)
-        for lang in LANGS:
+        for lang in [l for l in LANGS if l in cfgs]:
             c = cfgs[lang]
             ireq += [{'cmd': 'generate', 'lang': lang, 'cfg': c, 'src': src, 'target_os': []}, {'cmd': 'generate', 'lang': lang, 'cfg': c, 'src': tsrc, 'target_os': []},
                      {'cmd': 'generate_ir', 'lang': lang, 'cfg': c, 'items': items, 'reconcile': False}, {'cmd': 'generate_ir', 'lang': lang, 'cfg': c, 'items': titems, 'reconcile': False}]
@@ -570,7 +603,7 @@ def judge_programs(chk, progs):
             continue
         mreq.append(f'(c04_cells {a["ok"]})')
         mkey.append((n, None, 'cells'))
-        for lang in LANGS:
+        for lang in [l for l in LANGS if l in cfgs]:
             mreq.append(f'(c04_rows_src {lang} {back.cfg_sx(cfgs[lang])} {a["ok"]} {a["tstrs"]} ())')
             mkey.append((n, lang, 'src'))
             mreq.append(f'(c04_rows_ir {lang} {back.cfg_sx(cfgs[lang])} {back.items_sx(p.ir_items())} false)')
@@ -588,7 +621,7 @@ def judge_programs(chk, progs):
             if oracle.get(c.ident) != want:
                 chk.violation(f'oracle-{n}-{c.ident}', {'source': p.source(), 'cell': c.ident, 'generator': want, 'oracle': oracle.get(c.ident)},
                               'the generator\'s ground truth and Spec.C04Spec.c04_file_cells disagree about the source', no_input=True)
-        for lang in LANGS:
+        for lang in [l for l in LANGS if l in cfgs]:
             for entry in ('src', 'ir'):
                 rp, rt = ires[(n, lang, entry, False)], ires[(n, lang, entry, True)]
                 payload = {'kind': kind, 'source': p.source(), 'twin_source': p.source(True), 'cfg': cfgs[lang], 'items': p.ir_items() if entry == 'ir' else None}
@@ -688,6 +721,14 @@ def ir_twin_and_cells(items, nm):
     return cp, tw, cells
 
 
+def ir_cfg(lang, n):
+    """configuration of the n-th IR set: Go alternates no_pointer_slice"""
+    c = dict(BASE_CFG.get(lang, {}))
+    if lang == 'go' and n % 2:
+        c['no_pointer_slice'] = True
+    return c
+
+
 def judge_ir_sets(chk, sets):
     if not hasattr(chk, 'corr'):
         chk.corr = []
@@ -697,7 +738,7 @@ def judge_ir_sets(chk, sets):
     ireq, mreq, key = [], [], []
     for n, (cp, tw, cells) in enumerate(prepared):
         for lang in LANGS:
-            c = dict(BASE_CFG.get(lang, {}))
+            c = ir_cfg(lang, n)
             ireq += [{'cmd': 'generate_ir', 'lang': lang, 'cfg': c, 'items': cp, 'reconcile': False}, {'cmd': 'generate_ir', 'lang': lang, 'cfg': c, 'items': tw, 'reconcile': False}]
             mreq.append(f'(c04_rows_ir {lang} {back.cfg_sx(c)} {back.items_sx(cp)} false)')
             key.append((n, lang))
@@ -707,7 +748,7 @@ def judge_ir_sets(chk, sets):
     for k, (n, lang) in enumerate(key):
         cp, tw, cells = prepared[n]
         rp, rt, m = ires[2 * k], ires[2 * k + 1], rows_of_model(mres[k])
-        payload = {'kind': 'irset', 'items': cp, 'twin_items': tw, 'cfg': BASE_CFG.get(lang, {})}
+        payload = {'kind': 'irset', 'items': cp, 'twin_items': tw, 'cfg': ir_cfg(lang, n)}
         if 'ok' not in rp or 'ok' not in rt:
             chk.count('impl_not_ok')
             if m[0] == 'ok' and 'ok' not in rp:
